@@ -310,13 +310,21 @@ def _check_axis_order(ctx: Ctx) -> None:
     def is_prod(e: ast.AST) -> bool:
         return e is prod[0] or (isinstance(e, ast.Name) and defs.get(e.id) is prod[0])
     comb_scopes: List = []           # (name of one combination, the node in which it is in scope)
+    def comb_name(target: ast.AST, it: ast.AST) -> Optional[str]:
+        """name bound to one combination by `for <target> in <it>` (also through enumerate(product))"""
+        if isinstance(target, ast.Name) and is_prod(it):
+            return target.id
+        if isinstance(target, ast.Tuple) and len(target.elts) == 2 and isinstance(target.elts[1], ast.Name) and isinstance(it, ast.Call) \
+                and norm(it.func) == 'enumerate' and it.args and is_prod(it.args[0]):
+            return target.elts[1].id
+        return None
     for f in walk_no_nested(en.node):
-        if isinstance(f, ast.For) and isinstance(f.target, ast.Name) and is_prod(f.iter):
-            comb_scopes.append((f.target.id, f))
+        if isinstance(f, ast.For) and comb_name(f.target, f.iter):
+            comb_scopes.append((comb_name(f.target, f.iter), f))
         elif isinstance(f, (ast.ListComp, ast.GeneratorExp, ast.SetComp, ast.DictComp)):
             for g in f.generators:
-                if isinstance(g.target, ast.Name) and is_prod(g.iter):
-                    comb_scopes.append((g.target.id, f))
+                if comb_name(g.target, g.iter):
+                    comb_scopes.append((comb_name(g.target, g.iter), f))
     labels: List[ast.AST] = []
     if len(comb_scopes) == 1:
         comb, scope = comb_scopes[0]
